@@ -102,6 +102,25 @@ def range (v : TView ν α) (ranges : List (Nat × Nat)) : Option (TView ν α) 
             | none => none⟩
   else none
 
+/-- `IndexRange::mask` for every dimension, behind the per-dimension bound check of the masked
+    shape (`map_indexes_by_mask`). -/
+def mapByMask : List Nat → List Nat → List (Nat × Nat) → Option (List Nat)
+  | i :: is, l :: ls, (start, len) :: ms =>
+    if i < l - len then (mapByMask is ls ms).map ((if i < start then i else i + len) :: ·) else none
+  | [], [], [] => some []
+  | _, _, _ => none
+
+/-- `TensorMask::from_all(source, [Some((start, length)); D])`, only for masks that lie inside the
+    source and leave at least one index per dimension (other masks: `none`, never generated). -/
+def mask (v : TView ν α) (masks : List (Nat × Nat)) : Option (TView ν α) :=
+  if masks.length = v.shape.length ∧
+      (List.zip v.lens masks).all (fun (l, (s, n)) => decide (s + n ≤ l ∧ 1 ≤ l - n)) then
+    some ⟨List.zipWith (fun d m => (d.1, d.2 - m.2)) v.shape masks,
+          fun idx => match mapByMask idx v.lens masks with
+            | some src => v.get src
+            | none => none⟩
+  else none
+
 /-- `reverse_indexes`: `length - 1 - index` for the reversed dimensions. -/
 def reverseIndexes : List Nat → List (ν × Nat) → List ν → List Nat
   | i :: is, d :: ds, names =>
